@@ -35,7 +35,7 @@ SHARDS = 16
 REACH = {
     "quick": {"text_compared": 6000, "fixed_points": 4000, "cross_decoded": 3000, "rewrites_compared": 15000,
               "apache_vectors": 13, "rewrite_kind_name_spelling": 500, "rewrite_kind_ref_qualified": 100,
-              "rewrite_kind_inherited_spelled_out": 200, "piecewise_text_compared": 1000, "piecewise_text_compared_2plus_pieces": 300, "error_kind_text_compared": 300},
+              "rewrite_kind_inherited_spelled_out": 200, "piecewise_text_compared": 1000, "piecewise_text_compared_2plus_pieces": 300, "error_kind_text_compared": 300, "extreme_attribute_cases": 30},
     "thorough": {"text_compared": 200000},
 }
 
@@ -164,6 +164,42 @@ def vectors(sh, fa):
         sh.count("apache_vectors")
 
 
+def extremes(sh, fa):
+    """Attribute values at the ends of their ranges: text compared with the independent canonicaliser."""
+    from fastavro.schema import to_parsing_canonical_form as tpcf
+
+    cases = []
+    for size in (0, 1, 255, 65536, 999999, 1000000, 1000001, 1048576, 12345678, 16777216, 2**31 - 1, 2**40):
+        cases.append({"type": "fixed", "name": "F", "namespace": "x", "size": size})
+        cases.append({"type": "record", "name": "R", "fields": [{"name": "f", "type": ["null", {"type": "fixed", "name": "F", "size": size}]},
+                                                                 {"name": "g", "type": {"type": "array", "items": "F"}}]})
+    for syms in ([], ["A"], ["A", "B"], ["_", "__", "a1"], ["S%d" % i for i in range(300)]):
+        cases.append({"type": "enum", "name": "E", "symbols": syms, "doc": "d", "aliases": ["Old"]})
+        cases.append({"type": "record", "name": "R", "namespace": "n", "fields": [{"name": "e", "type": ["null", {"type": "enum", "name": "E", "symbols": syms}]},
+                                                                                   {"name": "again", "type": {"type": "map", "values": "n.E"}}]})
+    cases.append({"type": "record", "name": "NoFields", "fields": []})
+    cases.append({"type": "record", "name": "Many", "fields": [{"name": "f%d" % i, "type": "int"} for i in range(400)]})
+    for js in cases:
+        want = RP.pcf(js)
+        sh.case(h64("extreme", want[:200], len(want)), True)
+        for arg in ("raw", "parsed"):
+            a = copy.deepcopy(js)
+            if arg == "parsed":
+                st, a = guard(fa.parse_schema, a)
+                if st == "exc":
+                    sh.violation("canonical-form-raised", "parse_schema: %s" % exc_name(a), {"schema": js})
+                    return
+            st, got = guard(tpcf, a)
+            if st == "exc" or got != want:
+                sh.violation("canonical-form-differs", "library: %s  specification: %s" % (exc_name(got) if st == "exc" else got[:300], want[:300]), {"schema": js})
+                return
+        st, again = guard(tpcf, json.loads(want))
+        if st == "exc" or again != want:
+            sh.violation("not-a-fixed-point", "re-applied: %s" % (exc_name(again) if st == "exc" else again[:300]), {"schema": js})
+            return
+        sh.count("extreme_attribute_cases")
+
+
 def run_shard(spec):
     import fastavro as fa
     from fastavro.schema import to_parsing_canonical_form as to_pcf
@@ -182,6 +218,7 @@ def run_shard(spec):
         return sh.result()
     if spec.get("boundary"):
         sh.run_case(vectors, sh, fa)
+        sh.run_case(extremes, sh, fa)
     i = 0
     while i < spec["n"] and not sh.out_of_time():
         i += 1
